@@ -386,6 +386,35 @@ def run_main(root, argv, events=(), fail_stderr_after=None, clock_step=None, std
     return res
 
 
+def run_main_subprocess(root, argv, events=(), hashseed=None, clock_step=None, stdin_isatty=None, timeout=300):
+    """run_main() in a child process with its own PYTHONHASHSEED (None = random, as for a user). Returns a Result."""
+    import json
+    import subprocess
+    env = dict(os.environ)
+    if hashseed is None:
+        env.pop('PYTHONHASHSEED', None)
+    else:
+        env['PYTHONHASHSEED'] = str(hashseed)
+    here = os.path.dirname(os.path.dirname(os.path.abspath(__file__)))
+    env['PYTHONPATH'] = here + os.pathsep + env.get('PYTHONPATH', '')
+    spec = {'root': root, 'argv': list(argv), 'events': [[list(p), e] for p, e in events], 'clock_step': clock_step, 'stdin_isatty': stdin_isatty}
+    p = subprocess.run([sys.executable, '-m', 'pv.child_run'], input=json.dumps(spec), capture_output=True, text=True, env=env, cwd=here, timeout=timeout)
+    if p.returncode != 0 or not p.stdout.strip().startswith('{'):
+        raise core.HarnessError(f'child run failed (rc {p.returncode}): {p.stderr[-400:]}')
+    d = json.loads(p.stdout)
+    if 'child_exception' in d:
+        if d.get('in_repo'):
+            raise core.Violation('crash:main', f'pcfg_guesser.main() {list(argv)} raised in a separate process (PYTHONHASHSEED={hashseed}): {d["child_exception"][-700:]}',
+                                 {'argv': list(argv), 'events': spec['events']})
+        raise core.HarnessError('child run raised outside the repository code: ' + d['child_exception'][-500:])
+    res = Result()
+    for k, v in d.items():
+        setattr(res, k, v)
+    res.pops = [(tuple(tuple(x) for x in pt), prob) for pt, prob in (d.get('pops') or [])]
+    res.delivered = [[(tuple(x[0]) if isinstance(x[0], list) else x[0])] + list(x[1:]) for x in (d.get('delivered') or [])]
+    return res
+
+
 def session_name_path(root, name):
     return os.path.join(root, name + '.sav')
 
